@@ -19,7 +19,7 @@ func createDynForDynamicSampler(c *config.DynamicSamplerConfig) dynsampler.Sampl
 		maxKeys = 500
 	}
 	clearFreq := c.ClearFrequency
-	if clearFreq == 0 {
+	if clearFreq <= 0 { // a negative interval would panic in dynsampler's ticker goroutine
 		clearFreq = config.Duration(30 * time.Second)
 	}
 
